@@ -70,13 +70,18 @@ CLAIMS["C06"] = (
     "C06_first_error_is_among_all_errors - every leaf of the FIRST error tree is a leaf of the ALL tree, for every type "
     "and datum (and C06_disable_error_is_among_all_errors for union-free types); C06_model_loader_modes_agree - for generated model "
     "loaders (the stop-at-first and the collect-all interpreters of Model/CrownSem.v) every crown, extra policy and datum is "
-    "accepted by all three modes or by none, with equal fields and extras. Tied to the code by "
+    "accepted by all three modes or by none, with equal fields and extras, and C06_model_first_error_is_first_of_all - the "
+    "single error of DISABLE / FIRST is exactly the FIRST error ALL collects (same class and key set, same trail under FIRST, "
+    "none under DISABLE), and conversely. Tied to the code by "
     "running every generated case under DISABLE/FIRST/ALL on library and model (complete error trees compared) plus a "
     "direct three-way comparison of the library's modes (acceptance, value, single error among ALL's errors).",
     LOADNOTE + "Partial: under DISABLE a failing union raises one plain LoadError that stands for all cases, so the "
     "'among ALL's errors' theorem for DISABLE is stated for union-free types (the direct oracle covers the rest); "
-    "model dumpers of models are covered by C03's check. One defect repaired (tuple from "
-    "one-shot iterator).", "DESIGN.md section 5 C06", TECH)
+    "model dumpers of models are covered by C03's check. The theorems carry the hypothesis that user loaders raise LoadError "
+    "only; user code raising other exceptions is covered by oracles (a user loader raising ValueError inside model fields "
+    "that are union cases / optional / elements; data outside the model's value type - instances of subclasses of str / int / "
+    "list / dict / tuple, views, one-shot iterables - across the three modes). Two defects repaired (tuple from "
+    "one-shot iterator; unexpected field-loader errors reported as AggregateLoadError under ALL).", "DESIGN.md section 5 C06", TECH)
 CLAIMS["C04"] = (
     "Proof: C04_only_load_error - for every type of the fragment, datum, debug mode and coercion mode the outcome is a "
     "value or a LoadError tree, provided user loaders raise LoadError only (so a non-LoadError can only come from user "
@@ -111,8 +116,12 @@ CLAIMS["C05"] = (
     "once, position prefixed (complete at every nesting depth). Tied to the code by planted faults (wrong-type leaves, tuple "
     "length, bad dict keys, bad key together with bad value) with a direct oracle on the library (follow the trail; ALL = "
     "exactly the planted positions once; FIRST = exactly one; DISABLE = none) and by comparing full error trees with the model.",
-    LOADNOTE + "Model (crown) trails of dataclass-like models are covered by the C05 model_faults block and the C03 check "
-    "(compared, not proved). One defect "
+    LOADNOTE + "Generated model loaders (any nesting of mapping and list nodes, renamed and flattened paths, extra policies): "
+    "C05_model_all_trails_exact / C05_model_first_trail_exact - every reported trail, followed through the datum, reaches a "
+    "sub-value that offends the crown node found along the same trail exactly as the error class says (wrong kind; exactly "
+    "the missing required keys; exactly the unknown keys; too short / long a list); C05_model_all_reports_every_offence - ALL "
+    "is complete at every depth; C05_model_disable_no_trail (Proofs/CrownTrails.v over Model/CrownSem.v, which the C03 "
+    "correspondence and the model_faults / repeated_trails blocks tie to the generated loaders). One defect "
     "repaired (ExcludedTypeLoadError.input_value).", "DESIGN.md section 5 C05", TECH)
 
 CLAIMS["C01"] = (
@@ -156,7 +165,10 @@ CLAIMS["C16"] = (
     "Proof: C16_resolver_is_substitution - for every well-formed class table (any depth, any number of bases, variables "
     "re-ordered, partially bound, nested inside other generics, shadowed by overriding annotations) the model of "
     "GenericResolver (members by parents + parametrisation) returns for every field the annotation of the defining class "
-    "with the substitutions composed along the inheritance path; C16_substitution_composes for nested parametrisations. "
+    "with the substitutions composed along the inheritance path; C16_substitution_composes for nested parametrisations; "
+    "C16_resolved_type_has_no_variable (closed arguments leave no type variable), C16_own_annotation_shadows, "
+    "C16_inherited_through_base (first base that has the field, applied to its arguments as written), "
+    "C16_bare_is_implicit_substitution / C16_bare_has_no_variable (bare use = the implicit parameters as arguments). "
     "Tied to the code by generated hierarchies rendered as real generic dataclasses / attrs classes: for every field and 13 "
     "probe data, Retort.load accepts exactly the data conforming to the specified substituted type (incl. bare use with "
     "implicit parameters); the model's resolve is evaluated on the same tables and compared with the restated specification.",
@@ -279,6 +291,9 @@ CLAIMS["C12"] = (
     "(directly or through set stubs) only stubs that have been set - with stubs compared by identity; "
     "C12_by_location_refuted - the witness schedule for the code as it was; C12_stubs_compare_by_identity and "
     "C12_shared_state_code_is_the_reviewed_one tie the model's premises to /repo (regenerated every run); "
+    "C12_normalizer_is_never_mutated_after_construction / C12_normalizer_namespace_code_is_the_reviewed_one - the one "
+    "module-level type normaliser every thread uses is not written after construction (list of self-writes regenerated from "
+    "the source = []) and evaluates forward references on a namespaced copy; "
     "C12_replay_reachable - the executable replay used for recorded traces is sound for the relation. Partial because "
     "CPython's scheduler, C-level release points and free-threaded memory effects are outside the model. Tie: a "
     "sys.settrace scheduler (no source hook) drives real threads through Retort.load / dump on 7 scenarios, every "
